@@ -313,6 +313,18 @@ Theorem metadata_columns_complete : forall md e kv,
 Proof. exact widths_complete. Qed.
 Print Assumptions metadata_columns_complete.
 
+(* whatever the metadata (lists of different lengths, a scalar where other ids hold a list, missing keys): in
+   every row every key fills exactly the columns carrying its label -- no value lands under another key's
+   label -- and every row has one cell per label *)
+Theorem metadata_export_aligned : forall ids md,
+  (forall e kn, In e md -> In kn (widths md) -> length (key_cells e kn) = length (key_columns kn)) /\
+  (forall cols rows, md_df ids (Some md) = ROk (cols, rows) ->
+     Forall (fun r => length (snd r) = length cols) rows).
+Proof.
+  intros ids md. split; [intros e kn; apply md_df_aligned|intros cols rows; apply md_df_rect].
+Qed.
+Print Assumptions metadata_export_aligned.
+
 Theorem metadata_export_none : forall ids, md_df ids None = RErr E_KEY.
 Proof. reflexivity. Qed.
 Print Assumptions metadata_export_none.
@@ -348,4 +360,26 @@ Example ex_md : md_df [10; 20]%Z (Some [L [L [L [I 112]; L [I 2; I 1]]; L [L [I 
                                         L [L [L [I 113]; L [I 2; I 3]]; L [L [I 112]; L [I 2; I 4]]]]%Z)
               = ROk ([L [L [I 112]]; L [L [I 113]]]%Z,
                      [(10, [L [I 2; I 1]; L [I 2; I 2]]); (20, [L [I 2; I 4]; L [I 2; I 3]])]%Z).
+Proof. vm_compute. reflexivity. Qed.
+(* taxonomy lists of different depth followed by another key: tax_0 tax_1 tax_2 n *)
+Example ex_md_jagged :
+  md_df [10; 20]%Z (Some [L [L [L [I 116]; L [I 5; L [L [I 2; I 1]; L [I 2; I 2]; L [I 2; I 3]]]]; L [L [I 110]; L [I 2; I 7]]];
+                          L [L [L [I 116]; L [I 5; L [L [I 2; I 1]]]]; L [L [I 110]; L [I 2; I 8]]]]%Z)
+  = ROk ([L [L [I 116]; I 0]; L [L [I 116]; I 1]; L [L [I 116]; I 2]; L [L [I 110]]]%Z,
+         [(10, [L [I 2; I 1]; L [I 2; I 2]; L [I 2; I 3]; L [I 2; I 7]]);
+          (20, [L [I 2; I 1]; L [I 0]; L [I 0]; L [I 2; I 8]])]%Z).
+Proof. vm_compute. reflexivity. Qed.
+Example ex_head : cli_head 2 3 ex_rt = ROk ([1; 2; 3]%Z, [(10, [5; 0; 0]); (20, [0; 0; 0])]%Z) /\
+                  cli_head 0 3 ex_rt = RErr E_VALUE.
+Proof. vm_compute. split; reflexivity. Qed.
+Example ex_reduce : r_empty ex_rt = false /\ r_reduce Z.add Samp ex_rt = ROk [5; 2; 0; 7]%Z /\
+                    r_reduce Z.sub Obs ex_nz = ROk [-2; 0; -1]%Z.
+Proof. vm_compute. repeat split; reflexivity. Qed.
+Example ex_counts : r_nonzero_counts ASamp true ex_rt = [1; 1; 0; 1]%Z /\ r_nonzero_counts AObs false ex_nz = [12; 0; 1]%Z /\
+                    r_nonzero_counts AWhole true ex_rt = [3]%Z /\ r_nnz ex_rt = 3.
+Proof. vm_compute. repeat split; reflexivity. Qed.
+Example ex_transpose : dense (rt_transpose ex_rt) = [[5; 0; 0]; [0; 0; 2]; [0; 0; 0]; [7; 0; 0]]%Z /\
+                       nz_segs (r_segs (rt_transpose ex_rt)).
+Proof. split; [vm_compute; reflexivity|apply nz_segsb_nz; vm_compute; reflexivity]. Qed.
+Example ex_df_sparse : df_sparse ex_rt = [[Some 5; None; None; Some 7]; [None; None; None; None]; [None; Some 2; Some 0; None]]%Z.
 Proof. vm_compute. reflexivity. Qed.
